@@ -7,6 +7,38 @@ def showExI : Except String Int → String
   | .ok i => s!"ok {i}"
   | .error e => s!"err {e}"
 
+def showExNats : Except String (List Nat) → String
+  | .ok ps => "ok " ++ showNats ps
+  | .error e => s!"err {e}"
+
+def tokOf (cs : List Char) : String := if cs.isEmpty then "_" else String.ofList cs
+
+/-- root pitch class and quality of a structured symbol, as `chord_symbol_root` / `chord_symbol_quality` see it -/
+def showRQ (ev : ChordEvent) : String :=
+  match rootQuality ev with
+  | .error e => s!"err {e}"
+  | .ok none => "nc"
+  | .ok (some (r, q)) => s!"ok {r} {q}"
+
+/-- `ok N.C.` or `ok <root name> <suffix or _> | <root pc and quality of the structured reading>` -/
+def showDecoded : Except String ChordDecoded → String
+  | .error e => s!"err {e}"
+  | .ok .noChord => "ok " ++ Gen.NO_CHORD
+  | .ok (.name r s) => match structured (.name r s) with
+      | some ev => s!"ok {tokOf r} {tokOf s} | {showRQ ev}"
+      | none => s!"ok {tokOf r} {tokOf s} | unparsed"
+
+/-- `<step letter> <alter> <index into Gen.chordKindsByAbbrev> <n> (<index into Gen.degreeMods> <degree>)*` -/
+def pSym : P (Option ChordEvent) := do
+  let st ← P.str
+  let alter ← P.int
+  let k ← P.nat
+  let ms ← P.list (do let mi ← P.nat; let d ← P.nat; pure (mi, d))
+  let mods := ms.mapM (fun (mi, d) => (Gen.degreeMods[mi]?).map (fun (_, op, a) => (⟨op, a, d⟩ : Mod)))
+  match st.toList, Gen.chordKindsByAbbrev[k]?, mods with
+  | [c], some (ab, _), some mods => pure (some (.sym c alter ab mods))
+  | _, _, _ => pure none
+
 def step (line : String) : String :=
   match toks line with
   | ["mel_enc", a, b, e] => match a.toInt?, b.toInt?, e.toInt? with
@@ -33,8 +65,41 @@ def step (line : String) : String :=
       | some ps => s!"ok {drumEncode Gen.drumTable ps}"
       | none => "bad-op"
   | ["drum_dec", i] => match i.toNat? with
-      | some i => match drumDecode Gen.drumTable i with
-          | .ok ps => "ok " ++ showNats ps
+      | some i => showExNats (drumDecode Gen.drumTable i)
+      | none => "bad-op"
+  | "drumg_enc" :: _ => match P.run (do P.lit "drumg_enc"; let ign ← P.bool; let t ← P.list (P.list P.nat)
+                                        let ev ← P.list P.nat; pure (ign, t, ev)) line with
+      | some (ign, t, ev) => match drumEncodeE t ign ev with
+          | .ok i => s!"ok {i}"
+          | .error e => s!"err {e}"
+      | none => "bad-op"
+  | "drumg_dec" :: _ => match P.run (do P.lit "drumg_dec"; let t ← P.list (P.list P.nat)
+                                        let i ← P.nat; pure (t, i)) line with
+      | some (t, i) => showExNats (drumDecode t i)
+      | none => "bad-op"
+  | ["mm_dec", i] => match i.toInt? with
+      | some i => showDecoded (mmDecode i)
+      | none => "bad-op"
+  | ["tri_dec", i] => match i.toInt? with
+      | some i => showDecoded (triadDecode i)
+      | none => "bad-op"
+  | ["mm_enc_nc"] => showExI (mmEncode .noChord)
+  | ["tri_enc_nc"] => showExI (triadEncode .noChord)
+  | "mm_enc" :: _ => match P.run (do P.lit "mm_enc"; pSym) line with
+      | some (some ev) => showExI (mmEncode ev)
+      | _ => "bad-op"
+  | "tri_enc" :: _ => match P.run (do P.lit "tri_enc"; pSym) line with
+      | some (some ev) => showExI (triadEncode ev)
+      | _ => "bad-op"
+  | "sym_rq" :: _ => match P.run (do P.lit "sym_rq"; pSym) line with
+      | some (some ev) => showRQ ev
+      | _ => "bad-op"
+  | "dens_enc" :: _ => match P.run (do P.lit "dens_enc"; let b ← P.list P.rat; let x ← P.rat; pure (b, x)) line with
+      | some (b, x) => s!"ok {densEncode b x} {densNumClasses b}"
+      | none => "bad-op"
+  | "dens_dec" :: _ => match P.run (do P.lit "dens_dec"; let b ← P.list P.rat; let i ← P.int; pure (b, i)) line with
+      | some (b, i) => match densDecode b i with
+          | .ok v => s!"ok {showRat v}"
           | .error e => s!"err {e}"
       | none => "bad-op"
   | _ => "bad-op"
